@@ -170,6 +170,7 @@ def run(ctx):
     check_file_read(ctx, prog)
     check_raw_scalars(ctx, prog)
     check_order_members(ctx, prog)
+    check_buffer_alias(ctx, prog)
     return __doc__.split('\n\n', 1)[1]
 
 
@@ -364,6 +365,20 @@ def interp_partial(ctx, prog, f):
                         return 'bad', 'the loop stops after %d of %d bytes although the last OS call made progress (script of OS results %s): the rest of the data is never transferred' % (done, N, script)
                 if not calls and N > 0:
                     return 'bad', 'no OS call is made for a request of %d bytes' % N
+                if kinds and kinds[0] in ('send', 'write') and script == [N]:
+                    # sending does not depend on what the receiving direction left behind: with the error code of an earlier
+                    # receive still set (a zero-length read sets it) the same transfer must take place
+                    calls2 = []
+
+                    def osio2(run, e, args, calls2=calls2):
+                        calls2.append((args[1], args[2]))
+                        return args[2] if isinstance(args[2], int) else -1
+                    r2 = scansim.Run(prog, f, {'B': [0] * (N + 8)}, ptr_params={f['params'][0]['id']: ('P', 'B', 0)}, int_params={f['params'][1]['id']: N},
+                                     mems={'_blocking': 1, '_handle': 3, '_error': 2}, externs={'read': osio2, 'recv': osio2, 'send': osio2, 'write': osio2}, methods={'*': 'interp'})
+                    got2 = r2.run()
+                    runs += 1
+                    if not calls2 or (isinstance(got2, int) and got2 != N):
+                        return 'bad', 'with the error code of an earlier receive still set (`_error` != 0) a write of %d bytes %s: every later value written to a healthy connection is silently dropped' % (N, 'makes no OS call' if not calls2 else 'returns %s' % got2)
                 if isinstance(got, int) and got != done:
                     return 'bad', 'after the partial results %s the function returns %s although %d byte(s) were transferred' % (results, got, done)
     except (scansim.Unsupported, scansim.OOB, TypeError, KeyError, IndexError):
@@ -1220,3 +1235,21 @@ def check_order_members(ctx, prog):
                       '`%s` carries the byte order (set from the order given to the constructor) and is read by %s (line %s), but setEndian() does not assign it: after a switch of the order the old one keeps being applied' % (m, f['pq'], e.get('l')))
     ctx.floor('C16.order constructors compared', n_c, 2)
     ctx.floor('C16.order setEndian members', n_s, 2)
+
+
+
+def check_buffer_alias(ctx, prog):
+    """R-ALIAS for StreamBuffer: the writer members receive a pointer or a reference that may designate bytes of the buffer itself
+    (`buffer.write(buffer.data(), n)`, `buffer << *buffer`); it must not be read after the storage was resized - the same
+    typestate analysis as for Array (whose invalidating members are the ones StreamBuffer calls on itself, with Array's
+    summaries for the forwarded calls: `append(p, n)` re-bases a pointer into the array)."""
+    import alias, C01
+    ac_arr = alias.AliasClass(prog, ctx, 'Array', 'asl::Array', ('_a',), (), C01.array_risk)
+    unsafe_arr, _ = ac_arr.run('R-ALIAS', report=False)
+
+    def risk(f, p):
+        t = T(f, p['t'])
+        return bool(t.get('ptr') or t.get('ref')) and not T(f, t.get('to')).get('rec')
+    ac = alias.AliasClass(prog, ctx, 'StreamBuffer', 'asl::StreamBuffer', ('_a',), (), risk, extra_invalidators=ac_arr.inv)
+    unsafe, n = ac.run('R-ALIAS', extern_summaries=unsafe_arr)
+    ctx.floor('R-ALIAS StreamBuffer members x at-risk params', n, 2)
